@@ -79,6 +79,8 @@ type Sched struct {
 	trace    []string
 	tracing  bool
 	endOnce  sync.Once
+	por      *porState // non-nil in sleep-set mode (por.go)
+	inShim   bool
 }
 
 // active is the scheduler of the execution in progress (nil outside Run).
@@ -241,12 +243,20 @@ func (s *Sched) yieldUntil(pred func() bool, label string) {
 		s.deadlock()
 		s.exitCurrent()
 	}
-	running := list[0] == t
-	c := s.choose(len(list), 't', running, label, ids(list), t.id)
-	if c < 0 {
-		s.exitCurrent()
+	var next *Thread
+	if s.por != nil {
+		next = s.porPick(list, label)
+		if next == nil {
+			s.exitCurrent()
+		}
+	} else {
+		running := list[0] == t
+		c := s.choose(len(list), 't', running, label, ids(list), t.id)
+		if c < 0 {
+			s.exitCurrent()
+		}
+		next = list[c]
 	}
-	next := list[c]
 	if next == t {
 		t.enabled = nil
 		s.logf("T%d %s", t.id, label)
@@ -280,14 +290,22 @@ func (s *Sched) scheduleFromExit(t *Thread) {
 		s.deadlock()
 		return
 	}
-	c := 0
-	if len(list) > 1 {
-		c = s.choose(len(list), 't', false, "exit", ids(list), t.id)
-		if c < 0 {
+	var next *Thread
+	if s.por != nil {
+		next = s.porPick(list, "exit")
+		if next == nil {
 			return
 		}
+	} else {
+		c := 0
+		if len(list) > 1 {
+			c = s.choose(len(list), 't', false, "exit", ids(list), t.id)
+			if c < 0 {
+				return
+			}
+		}
+		next = list[c]
 	}
-	next := list[c]
 	s.cur = next
 	next.wake <- struct{}{}
 }
@@ -308,6 +326,18 @@ func (s *Sched) deadlock() {
 
 // Yield is a scheduling point before an always-enabled visible operation.
 func Yield(label string) {
+	s := active
+	if s == nil {
+		return
+	}
+	s.yieldUntil(nil, label)
+	if s.por != nil && !s.inShim {
+		s.por.footAll = true // an operation the scheduler cannot name
+	}
+}
+
+// ShimYield is Yield for shim operations, which report their own footprint.
+func ShimYield(label string) {
 	s := active
 	if s == nil {
 		return
@@ -336,6 +366,13 @@ func Choose(n int, label string) int {
 	}
 	if s.aborted {
 		s.exitCurrent()
+	}
+	if s.por != nil {
+		c := s.porChoose(n, label)
+		if c < 0 {
+			s.exitCurrent()
+		}
+		return c
 	}
 	c := s.choose(n, 'd', false, label, nil, s.cur.id)
 	if c < 0 {
